@@ -10,6 +10,12 @@ sparse under the returned quantum numbers, the kept singular values are those se
 (positive, discarded weight ≤ tol, …), and `u·diag(s)·v` differs from `A` exactly by the discarded part; for the
 zero matrix with disjoint quantum numbers it is only required to return a product equal to zero without raising.*
 
+Two branches of the code: a **zero matrix** (`¬ AnyNZ A`: in particular every block-sparse matrix without a shared
+charge, but also a zero matrix whose charge lists intersect) gets the dummy bond `u = e₀`, `s = [0]`, `v = 0`,
+`q = q0[:1]` of dimension one (`split_zero`); a **non-zero matrix** (`AnyNZ A`, which forces a shared charge:
+`split_nonzero_shared`) runs the loop over the shared charges and the truncation rule.  Under the kernel contracts and
+`0 ≤ tol < 1` the intermediate dimension is at least one in both branches (`split_bond_pos`).
+
 Model: `BondOps.splitMatrixSvd dsvd dnorm dargsort A q0 q1 tol` (`PtnModel/Model/BondOps.lean`), tied to
 `pytenet/bond_ops.py` by the differential correspondence of `./check C12`.  Entries live in a commutative ring
 `𝕜` with a star operation (`ℝ`, `ℂ`, `ℚ`), singular values in a linear ordered field `ρ` (`ℝ`, `ℚ`), embedded by a
@@ -17,6 +23,7 @@ ring homomorphism `ι : ρ →+* 𝕜` fixed by `star` (`ℝ → ℂ`, `id`).
 
 Vocabulary (`PtnModel/Proofs/Qr*.lean`, `Svd*.lean`):
 * `Sparse M qa qb`, `blocks A q0 q1` : as for C11 (the same blocks are handed to the kernel `dsvd`);
+* `AnyNZ A` : some in-range entry of `A` is non-zero, `∃ i j, i < A.m ∧ j < A.n ∧ A.f i j ≠ 0` (`np.any(A)`);
 * `spectrum dsvd A q0 q1` : the concatenation of the spectra of the blocks, `(blocks A q0 q1).flatMap (dsvd ·).2.1`
   (`split_spectrum`); `retainedBondIndices dnorm dargsort (spectrum …) tol` are the kept indices;
 * `tripleF ι u s v i j` : entry `(i, j)` of `u · diag(ι s) · v`, i.e. `∑ t < u.n, u[i,t] * ι s[t] * v[t,j]`;
@@ -90,26 +97,31 @@ theorem split_ok (hshape : SvdShape dsvd A q0 q1)
     ∃ u s v q, splitMatrixSvd dsvd dnorm dargsort A q0 q1 tol = .ok (u, s, v, q) :=
   split_ok' dnorm dargsort tol hshape ⟨hq0, hq1, hm, hn, hsp⟩
 
-/-- **(1')** Dimensions: `u` is `m × K`, `v` is `K × n`, `len(s) = len(q) = K ≤ min m n`; with a shared charge
-`K` is the number of retained indices of the concatenated spectrum, whose length is at most `min m n`. -/
+/-- **(1')** Dimensions: `u` is `m × K`, `v` is `K × n`, `len(s) = len(q) = K ≤ min m n`; for a non-zero matrix
+`K` is the number of retained indices of the concatenated spectrum, for a zero matrix `K = 1`; the length of the
+concatenated spectrum is at most `min m n`. -/
 theorem split_dims (hshape : SvdShape dsvd A q0 q1)
     (hq0 : q0.length = A.m) (hq1 : q1.length = A.n) (hm : 0 < A.m) (hn : 0 < A.n) (hsp : Sparse A q0 q1)
     {u v : Mat 𝕜} {s : List ρ} {q : List Int}
     (hrun : splitMatrixSvd dsvd dnorm dargsort A q0 q1 tol = .ok (u, s, v, q)) :
     u.m = A.m ∧ u.n = s.length ∧ v.m = s.length ∧ v.n = A.n ∧ q.length = s.length ∧ s.length ≤ min A.m A.n ∧
-    (intersect1d q0 q1 ≠ [] →
-      s.length = (retainedBondIndices dnorm dargsort (spectrum dsvd A q0 q1) tol).length ∧
-      (spectrum dsvd A q0 q1).length ≤ min A.m A.n) := by
+    (AnyNZ A → s.length = (retainedBondIndices dnorm dargsort (spectrum dsvd A q0 q1) tol).length) ∧
+    (¬ AnyNZ A → s.length = 1) ∧
+    (spectrum dsvd A q0 q1).length ≤ min A.m A.n := by
   have H : QRInput A q0 q1 := ⟨hq0, hq1, hm, hn, hsp⟩
   have h := result_of_split dnorm dargsort tol hshape H hrun
-  refine ⟨h.um, h.un, h.vm, h.vn, h.ql, h.le, fun hne => ?_⟩
-  rcases split_run_cases dnorm dargsort tol hshape H hrun with ⟨he, -⟩ | ⟨-, -, rfl, -, -⟩
-  · exact absurd he hne
-  · have hI := svdLoopState_inv hshape hq0 hq1
-    obtain ⟨-, -, sm, sn, -⟩ := srt_spec A q0 q1 hq0 hq1
-    refine ⟨by simp [outS, keptIdx], ?_⟩
+  have hI := svdLoopState_inv hshape hq0 hq1
+  obtain ⟨-, -, sm, sn, -⟩ := srt_spec A q0 q1 hq0 hq1
+  have hlen : (spectrum dsvd A q0 q1).length ≤ min A.m A.n := by
     rw [spectrum, hI.slen, ← sm, ← sn]
     exact Nat.le_min.2 ⟨hI.base.Dm, hI.base.Dn⟩
+  refine ⟨h.um, h.un, h.vm, h.vn, h.ql, h.le, fun hnz => ?_, fun hz => ?_, hlen⟩
+  · rcases split_run_cases dnorm dargsort tol hshape H hrun with ⟨hz, -⟩ | ⟨-, -, rfl, -, -⟩
+    · exact absurd hnz hz
+    · simp [outS, keptIdx]
+  · rcases split_run_cases dnorm dargsort tol hshape H hrun with ⟨-, -, rfl, -, -⟩ | ⟨hnz, -⟩
+    · rfl
+    · exact absurd hnz hz
 
 /-! ## (2) block sparsity (shape clause only) -/
 
@@ -129,7 +141,7 @@ theorem split_sparse_v (hshape : SvdShape dsvd A q0 q1)
 
 /-! ## (3) isometries -/
 
-/-- **(3)** `uᴴ u = 1_K` (also in the branch without shared charge, where `u = e₀`). -/
+/-- **(3)** `uᴴ u = 1_K` (also in the zero-matrix branch, where `u = e₀`). -/
 theorem split_isometry_u (hc : SVDContractOn ι dsvd A q0 q1)
     (hq0 : q0.length = A.m) (hq1 : q1.length = A.n) (hm : 0 < A.m) (hn : 0 < A.n) (hsp : Sparse A q0 q1)
     {u v : Mat 𝕜} {s : List ρ} {q : List Int}
@@ -138,41 +150,41 @@ theorem split_isometry_u (hc : SVDContractOn ι dsvd A q0 q1)
     ∑ i ∈ range A.m, star (u.f i t) * u.f i t' = if t = t' then 1 else 0 :=
   isoU' dnorm dargsort tol hc.shape hc.isoU ⟨hq0, hq1, hm, hn, hsp⟩ hrun ht ht'
 
-/-- **(3)** `v vᴴ = 1_K`, provided a charge is shared (without shared charge the code returns `v = 0`, see
-`split_disjoint`). -/
+/-- **(3)** `v vᴴ = 1_K`, provided the matrix is not zero (for a zero matrix the code returns `v = 0`, see
+`split_zero`). -/
 theorem split_isometry_v (hc : SVDContractOn ι dsvd A q0 q1)
     (hq0 : q0.length = A.m) (hq1 : q1.length = A.n) (hm : 0 < A.m) (hn : 0 < A.n) (hsp : Sparse A q0 q1)
     {u v : Mat 𝕜} {s : List ρ} {q : List Int}
     (hrun : splitMatrixSvd dsvd dnorm dargsort A q0 q1 tol = .ok (u, s, v, q))
-    (hne : intersect1d q0 q1 ≠ []) {t t' : Nat} (ht : t < v.m) (ht' : t' < v.m) :
+    (hnz : AnyNZ A) {t t' : Nat} (ht : t < v.m) (ht' : t' < v.m) :
     ∑ j ∈ range A.n, v.f t j * star (v.f t' j) = if t = t' then 1 else 0 :=
-  isoV' dnorm dargsort tol hc.shape hc.isoV ⟨hq0, hq1, hm, hn, hsp⟩ hrun hne ht ht'
+  isoV' dnorm dargsort tol hc.shape hc.isoV ⟨hq0, hq1, hm, hn, hsp⟩ hrun hnz ht ht'
 
 /-! ## (4) the returned singular values and the truncation rule -/
 
-/-- **(4)** With a shared charge, the returned `s` are exactly the entries of the concatenated spectrum at the
+/-- **(4)** For a non-zero matrix, the returned `s` are exactly the entries of the concatenated spectrum at the
 retained indices (ascending index order); under the non-negativity clause the spectrum is non-negative. -/
 theorem split_values (hshape : SvdShape dsvd A q0 q1)
     (hq0 : q0.length = A.m) (hq1 : q1.length = A.n) (hm : 0 < A.m) (hn : 0 < A.n) (hsp : Sparse A q0 q1)
     {u v : Mat 𝕜} {s : List ρ} {q : List Int}
-    (hrun : splitMatrixSvd dsvd dnorm dargsort A q0 q1 tol = .ok (u, s, v, q)) (hne : intersect1d q0 q1 ≠ []) :
+    (hrun : splitMatrixSvd dsvd dnorm dargsort A q0 q1 tol = .ok (u, s, v, q)) (hnz : AnyNZ A) :
     s = (retainedBondIndices dnorm dargsort (spectrum dsvd A q0 q1) tol).map
           (fun i => (spectrum dsvd A q0 q1).getD i 0) ∧
     (SvdNonneg dsvd A q0 q1 → ∀ x ∈ spectrum dsvd A q0 q1, 0 ≤ x) := by
   have H : QRInput A q0 q1 := ⟨hq0, hq1, hm, hn, hsp⟩
-  rcases split_run_cases dnorm dargsort tol hshape H hrun with ⟨he, -⟩ | ⟨-, -, rfl, -, -⟩
-  · exact absurd he hne
+  rcases split_run_cases dnorm dargsort tol hshape H hrun with ⟨hz, -⟩ | ⟨-, -, rfl, -, -⟩
+  · exact absurd hnz hz
   · exact ⟨rfl, fun hnn => spectrum_nonneg hnn hq0 hq1⟩
 
-/-- **(4a)** Kept singular values are positive (`0 ≤ tol`). -/
+/-- **(4a)** Non-zero matrix: the returned singular values are positive (`0 ≤ tol`).  (For a zero matrix `s = [0]`.) -/
 theorem split_rule_positive (hc : SVDContractOn ι dsvd A q0 q1)
     (hq0 : q0.length = A.m) (hq1 : q1.length = A.n) (hm : 0 < A.m) (hn : 0 < A.n) (hsp : Sparse A q0 q1)
     {u v : Mat 𝕜} {s : List ρ} {q : List Int}
-    (hrun : splitMatrixSvd dsvd dnorm dargsort A q0 q1 tol = .ok (u, s, v, q)) (hne : intersect1d q0 q1 ≠ [])
+    (hrun : splitMatrixSvd dsvd dnorm dargsort A q0 q1 tol = .ok (u, s, v, q)) (hnz : AnyNZ A)
     (hsort : SortContract (sortKeys (spectrum dsvd A q0 q1) (dnorm (spectrum dsvd A q0 q1)))
       (dargsort (sortKeys (spectrum dsvd A q0 q1) (dnorm (spectrum dsvd A q0 q1)))))
     (htol : 0 ≤ tol) : ∀ x ∈ s, 0 < x := by
-  obtain ⟨hs, hnn⟩ := split_values dnorm dargsort tol hc.shape hq0 hq1 hm hn hsp hrun hne
+  obtain ⟨hs, hnn⟩ := split_values dnorm dargsort tol hc.shape hq0 hq1 hm hn hsp hrun hnz
   intro x hx
   rw [hs] at hx
   obtain ⟨i, hi, rfl⟩ := List.mem_map.1 hx
@@ -187,16 +199,16 @@ theorem split_rule_weight (dsvd : Mat 𝕜 → Mat 𝕜 × List ρ × Mat 𝕜) 
       (discardedIdx (spectrum dsvd A q0 q1) (retainedBondIndices dnorm dargsort (spectrum dsvd A q0 q1) tol)) ≤ tol :=
   rule_weight dnorm dargsort _ tol hsort htol
 
-/-- **(4c)** No returned singular value is smaller than a discarded one. -/
+/-- **(4c)** Non-zero matrix: no returned singular value is smaller than a discarded one. -/
 theorem split_rule_order (hc : SVDContractOn ι dsvd A q0 q1)
     (hq0 : q0.length = A.m) (hq1 : q1.length = A.n) (hm : 0 < A.m) (hn : 0 < A.n) (hsp : Sparse A q0 q1)
     {u v : Mat 𝕜} {s : List ρ} {q : List Int}
-    (hrun : splitMatrixSvd dsvd dnorm dargsort A q0 q1 tol = .ok (u, s, v, q)) (hne : intersect1d q0 q1 ≠ [])
+    (hrun : splitMatrixSvd dsvd dnorm dargsort A q0 q1 tol = .ok (u, s, v, q)) (hnz : AnyNZ A)
     (hsort : SortContract (sortKeys (spectrum dsvd A q0 q1) (dnorm (spectrum dsvd A q0 q1)))
       (dargsort (sortKeys (spectrum dsvd A q0 q1) (dnorm (spectrum dsvd A q0 q1))))) :
     ∀ x ∈ s, ∀ j, j < (spectrum dsvd A q0 q1).length →
       j ∉ retainedBondIndices dnorm dargsort (spectrum dsvd A q0 q1) tol → (spectrum dsvd A q0 q1).getD j 0 ≤ x := by
-  obtain ⟨hs, hnn⟩ := split_values dnorm dargsort tol hc.shape hq0 hq1 hm hn hsp hrun hne
+  obtain ⟨hs, hnn⟩ := split_values dnorm dargsort tol hc.shape hq0 hq1 hm hn hsp hrun hnz
   intro x hx j hj hjn
   rw [hs] at hx
   obtain ⟨i, hi, rfl⟩ := List.mem_map.1 hx
@@ -212,17 +224,17 @@ theorem split_rule_maximal (dsvd : Mat 𝕜 → Mat 𝕜 × List ρ × Mat 𝕜)
         relWeight (spectrum dsvd A q0 q1) (dnorm (spectrum dsvd A q0 q1)) i :=
   rule_maximal dnorm dargsort _ tol hsort
 
-/-- **(4e)** Zero tolerance: the returned `s` are exactly the non-zero entries of the concatenated spectrum, in
+/-- **(4e)** Zero tolerance, non-zero matrix: the returned `s` are exactly the non-zero entries of the concatenated spectrum, in
 order. -/
 theorem split_rule_tol0 (hshape : SvdShape dsvd A q0 q1)
     (hq0 : q0.length = A.m) (hq1 : q1.length = A.n) (hm : 0 < A.m) (hn : 0 < A.n) (hsp : Sparse A q0 q1)
     {u v : Mat 𝕜} {s : List ρ} {q : List Int}
-    (hrun : splitMatrixSvd dsvd dnorm dargsort A q0 q1 0 = .ok (u, s, v, q)) (hne : intersect1d q0 q1 ≠ [])
+    (hrun : splitMatrixSvd dsvd dnorm dargsort A q0 q1 0 = .ok (u, s, v, q)) (hnz : AnyNZ A)
     (hnorm : NormContract (spectrum dsvd A q0 q1) (dnorm (spectrum dsvd A q0 q1)))
     (hsort : SortContract (sortKeys (spectrum dsvd A q0 q1) (dnorm (spectrum dsvd A q0 q1)))
       (dargsort (sortKeys (spectrum dsvd A q0 q1) (dnorm (spectrum dsvd A q0 q1))))) :
     s = (spectrum dsvd A q0 q1).filter fun x => decide (x ≠ 0) := by
-  obtain ⟨hs, -⟩ := split_values dnorm dargsort 0 hshape hq0 hq1 hm hn hsp hrun hne
+  obtain ⟨hs, -⟩ := split_values dnorm dargsort 0 hshape hq0 hq1 hm hn hsp hrun hnz
   rw [hs, rule_tol0 dnorm dargsort _ hnorm hsort]
   generalize spectrum dsvd A q0 q1 = S
   rw [← List.filterMap_eq_filter, ← List.filterMap_eq_filter]
@@ -276,14 +288,14 @@ theorem split_tol0_exact (hc : SVDContractOn ι dsvd A q0 q1)
   by_contra hne
   exact hk (List.mem_filter.2 ⟨List.mem_range.2 hp, by simpa using hne⟩)
 
-/-! ## (6) no shared charge -/
+/-! ## (6) zero matrix; the intermediate dimension is never zero -/
 
-/-- **(6)** No shared quantum number: whatever the kernels, the result is `u = e₀`, `s = [0]`, `v = 0`,
-`q = q0[:1]` (intermediate dimension one); `A` is the zero matrix and `u·diag(s)·v = 0 = A`; both factors are
-block sparse and `u` is an isometry. -/
-theorem split_disjoint (ι : ρ →+* 𝕜) (dsvd : Mat 𝕜 → Mat 𝕜 × List ρ × Mat 𝕜)
+/-- **(6)** Zero matrix (with or without shared quantum numbers): whatever the kernels, the result is `u = e₀`,
+`s = [0]`, `v = 0`, `q = q0[:1]` (intermediate dimension one); `u·diag(s)·v = 0 = A`; both factors are block sparse
+and `u` is an isometry. -/
+theorem split_zero (ι : ρ →+* 𝕜) (dsvd : Mat 𝕜 → Mat 𝕜 × List ρ × Mat 𝕜)
     (hq0 : q0.length = A.m) (hq1 : q1.length = A.n) (hm : 0 < A.m) (hn : 0 < A.n) (hsp : Sparse A q0 q1)
-    (he : intersect1d q0 q1 = []) :
+    (hz : ¬ AnyNZ A) :
     ∃ u v : Mat 𝕜, splitMatrixSvd dsvd dnorm dargsort A q0 q1 tol = .ok (u, [0], v, q0.take 1) ∧
       u.m = A.m ∧ u.n = 1 ∧ v.m = 1 ∧ v.n = A.n ∧ (q0.take 1).length = 1 ∧
       (∀ i p, u.f i p = if i = 0 then 1 else 0) ∧ (∀ p j, v.f p j = 0) ∧
@@ -294,16 +306,65 @@ theorem split_disjoint (ι : ρ →+* 𝕜) (dsvd : Mat 𝕜 → Mat 𝕜 × Lis
       Sparse u q0 (q0.take 1) ∧ Sparse v (q0.take 1) q1 := by
   have H : QRInput A q0 q1 := ⟨hq0, hq1, hm, hn, hsp⟩
   have hr := result_disjoint H
-  have hz := all_zero_of_disjoint H he
-  refine ⟨e0 A.m, Mat.zero 1 A.n, split_disjoint' dnorm dargsort tol dsvd H he, rfl, rfl, rfl, rfl,
-    take_one_length H, fun _ _ => rfl, fun _ _ => rfl, hz, ?_,
+  have hA := (not_anyNZ_iff A).1 hz
+  refine ⟨e0 A.m, Mat.zero 1 A.n, split_zero' dnorm dargsort tol dsvd H hz, rfl, rfl, rfl, rfl,
+    take_one_length H, fun _ _ => rfl, fun _ _ => rfl, hA, ?_,
     (isometry_disjoint A.m hm (Nat.lt_succ_self 0) (Nat.lt_succ_self 0)).trans (if_pos rfl),
     hr.sparseQ, hr.sparseR⟩
   intro i j hi hj
-  rw [hz i j hi hj]
+  rw [hA i j hi hj]
   apply sum_eq_zero
   intro p _
   rw [Mat.zero_f, mul_zero]
+
+/-- **(6')** A block-sparse matrix without a shared quantum number is zero; a block-sparse matrix with a non-zero
+entry has a shared quantum number. -/
+theorem split_nonzero_shared
+    (hq0 : q0.length = A.m) (hq1 : q1.length = A.n) (hm : 0 < A.m) (hn : 0 < A.n) (hsp : Sparse A q0 q1) :
+    (intersect1d q0 q1 = [] → ¬ AnyNZ A) ∧ (AnyNZ A → intersect1d q0 q1 ≠ []) :=
+  ⟨not_anyNZ_of_disjoint ⟨hq0, hq1, hm, hn, hsp⟩, shared_of_anyNZ ⟨hq0, hq1, hm, hn, hsp⟩⟩
+
+/-- **(6'')** No shared quantum number (special case of `split_zero`): the result is `u = e₀`, `s = [0]`, `v = 0`,
+`q = q0[:1]`. -/
+theorem split_disjoint (ι : ρ →+* 𝕜) (dsvd : Mat 𝕜 → Mat 𝕜 × List ρ × Mat 𝕜)
+    (hq0 : q0.length = A.m) (hq1 : q1.length = A.n) (hm : 0 < A.m) (hn : 0 < A.n) (hsp : Sparse A q0 q1)
+    (he : intersect1d q0 q1 = []) :
+    ∃ u v : Mat 𝕜, splitMatrixSvd dsvd dnorm dargsort A q0 q1 tol = .ok (u, [0], v, q0.take 1) ∧
+      u.m = A.m ∧ u.n = 1 ∧ v.m = 1 ∧ v.n = A.n ∧ (q0.take 1).length = 1 ∧
+      (∀ i p, u.f i p = if i = 0 then 1 else 0) ∧ (∀ p j, v.f p j = 0) ∧
+      (∀ i j, i < A.m → j < A.n → A.f i j = 0) ∧
+      (∀ i j, i < A.m → j < A.n →
+        ∑ p ∈ range 1, u.f i p * ι (([0] : List ρ).getD p 0) * v.f p j = A.f i j) ∧
+      (∑ i ∈ range A.m, star (u.f i 0) * u.f i 0 = 1) ∧
+      Sparse u q0 (q0.take 1) ∧ Sparse v (q0.take 1) q1 :=
+  split_zero dnorm dargsort tol ι dsvd hq0 hq1 hm hn hsp
+    ((split_nonzero_shared hq0 hq1 hm hn hsp).1 he)
+
+/-- **(7)** The intermediate dimension never collapses: under the shape and product clauses of the SVD contract, the
+norm and sort contracts of the truncation rule and `0 ≤ tol < 1`, the returned intermediate dimension is at least
+one.  (Zero matrix: the dummy bond.  Non-zero matrix: the concatenated spectrum is not all zero, so its norm is
+non-zero and the kept relative weight is `≥ 1 - tol > 0`.) -/
+theorem split_bond_pos (hshape : SvdShape dsvd A q0 q1) (hprod : SvdProduct ι dsvd A q0 q1)
+    (hq0 : q0.length = A.m) (hq1 : q1.length = A.n) (hm : 0 < A.m) (hn : 0 < A.n) (hsp : Sparse A q0 q1)
+    {u v : Mat 𝕜} {s : List ρ} {q : List Int}
+    (hrun : splitMatrixSvd dsvd dnorm dargsort A q0 q1 tol = .ok (u, s, v, q))
+    (hnorm : NormContract (spectrum dsvd A q0 q1) (dnorm (spectrum dsvd A q0 q1)))
+    (hsort : SortContract (sortKeys (spectrum dsvd A q0 q1) (dnorm (spectrum dsvd A q0 q1)))
+      (dargsort (sortKeys (spectrum dsvd A q0 q1) (dnorm (spectrum dsvd A q0 q1)))))
+    (h0 : 0 ≤ tol) (h1 : tol < 1) : 1 ≤ s.length := by
+  have H : QRInput A q0 q1 := ⟨hq0, hq1, hm, hn, hsp⟩
+  obtain ⟨-, -, -, -, -, -, hK, hK0, -⟩ := split_dims dnorm dargsort tol hshape hq0 hq1 hm hn hsp hrun
+  by_cases hnz : AnyNZ A
+  · rw [hK hnz]
+    have hw : dnorm (spectrum dsvd A q0 q1) ≠ 0 := fun hw =>
+      spectrum_ne_zero_of_anyNZ ι hshape hprod H hnz ((rule_zero_iff hnorm).1 hw)
+    have hkw := rule_kept_weight dnorm dargsort _ tol hnorm hw hsort h0
+    rcases hk : retainedBondIndices dnorm dargsort (spectrum dsvd A q0 q1) tol with _ | ⟨a, l⟩
+    · rw [hk] at hkw
+      simp only [weightOf, List.map_nil, List.sum_nil] at hkw
+      linarith
+    · simp
+  · rw [hK0 hnz]
 
 /-! ## Non-vacuity
 
@@ -326,19 +387,19 @@ theorem sx_rule_contracts :
   · unfold SortContract sortKeys; decide +kernel
 
 /-- non-vacuity of `split_ok`, `split_dims`, `split_sparse_*`, `split_isometry_*`, `split_values`,
-`split_rule_*`: all hypotheses (including `hrun`, a shared charge, the rule contracts, `0 ≤ tol`) hold for the
+`split_rule_*`: all hypotheses (including `hrun`, a non-zero matrix, the rule contracts, `0 ≤ tol`) hold for the
 example with a genuine truncation (`kept = [1]` out of the spectrum `[5, 12]`) -/
 example : ∃ (u v : Mat ℚ) (s : List ℚ) (q : List Int),
     SVDContractOn (RingHom.id ℚ) sxDsvd sxA [1, 0] [0, 1, 0] ∧
     [1, 0].length = sxA.m ∧ [0, 1, 0].length = sxA.n ∧ 0 < sxA.m ∧ 0 < sxA.n ∧ Sparse sxA [1, 0] [0, 1, 0] ∧
-    intersect1d [1, 0] [0, 1, 0] ≠ [] ∧ (0 : ℚ) ≤ 25 / 169 ∧
+    AnyNZ sxA ∧ (0 : ℚ) ≤ 25 / 169 ∧
     splitMatrixSvd sxDsvd (fun _ => (13 : ℚ)) (fun _ => [0, 1]) sxA [1, 0] [0, 1, 0] (25 / 169) = .ok (u, s, v, q) ∧
     spectrum sxDsvd sxA [1, 0] [0, 1, 0] = [5, 12] ∧
     retainedBondIndices (fun _ => (13 : ℚ)) (fun _ => [0, 1]) (spectrum sxDsvd sxA [1, 0] [0, 1, 0]) (25 / 169) = [1] := by
   obtain ⟨u, s, v, q, hrun⟩ := split_ok (fun _ => (13 : ℚ)) (fun _ => [0, 1]) (25 / 169) sx_shape
     sx_input.hq0 sx_input.hq1 sx_input.hm sx_input.hn sx_input.hsp
   exact ⟨u, v, s, q, sx_contract, sx_input.hq0, sx_input.hq1, sx_input.hm, sx_input.hn, sx_input.hsp,
-    by rw [sx_shared]; simp, by norm_num, hrun, sx_spectrum, sx_kept⟩
+    sx_anyNZ, by norm_num, hrun, sx_spectrum, sx_kept⟩
 
 /-- non-vacuity of `split_error_identity` and `split_reconstruct_full`: for the example `star` is trivial on `ℚ`
 (`hι`), and with `tol = 0` nothing is discarded, so `hdisc` holds -/
@@ -362,6 +423,18 @@ example : ∃ (u v : Mat ℚ) (s : List ℚ) (q : List Int),
   obtain ⟨u, s, v, q, hrun⟩ := split_ok (fun _ => (13 : ℚ)) (fun _ => [0, 1]) 0 sx_shape
     sx_input.hq0 sx_input.hq1 sx_input.hm sx_input.hn sx_input.hsp
   exact ⟨u, v, s, q, hrun, sx_kept0⟩
+
+/-- non-vacuity of the hypothesis `AnyNZ A` and of `split_bond_pos`: the example matrix is non-zero, the rule
+contracts hold and `0 ≤ 25/169 < 1` -/
+example : AnyNZ sxA ∧ (0 : ℚ) ≤ 25 / 169 ∧ (25 / 169 : ℚ) < 1 ∧
+    SvdShape sxDsvd sxA [1, 0] [0, 1, 0] ∧ SvdProduct (RingHom.id ℚ) sxDsvd sxA [1, 0] [0, 1, 0] :=
+  ⟨sx_anyNZ, by norm_num, by norm_num, sx_shape, sx_prod⟩
+
+/-- non-vacuity of `split_zero` beyond `split_disjoint`: the `2 × 3` zero matrix with SHARED charges `[1, 0]`,
+`[0, 1, 0]` is admissible input of the zero-matrix branch -/
+example : [1, 0].length = exZ.m ∧ [0, 1, 0].length = exZ.n ∧ 0 < exZ.m ∧ 0 < exZ.n ∧ Sparse exZ [1, 0] [0, 1, 0] ∧
+    ¬ AnyNZ exZ ∧ intersect1d [1, 0] [0, 1, 0] ≠ [] :=
+  ⟨sz_input.hq0, sz_input.hq1, sz_input.hm, sz_input.hn, sz_input.hsp, sz_zero, by rw [sx_shared]; simp⟩
 
 /-- non-vacuity of `split_disjoint`: a zero matrix with disjoint charges -/
 example : exz0.length = exZ.m ∧ exz1.length = exZ.n ∧ 0 < exZ.m ∧ 0 < exZ.n ∧ Sparse exZ exz0 exz1 ∧
